@@ -4,6 +4,7 @@
 import Lean.Data.Json
 import Prov.Eq
 import Prov.Json
+import Prov.JsonSpec
 
 open Lean
 namespace Driver
@@ -121,6 +122,9 @@ partial def decJVal (j : Json) : R JVal := do
   | .bool b => return .bool b
   | .str s => return .str s
   | _ =>
+    match field? j "s" with
+    | some sv => return .strf (← sv.getStr?) (← decFloat (← j.getObjVal? "f"))
+    | none =>
     match field? j "i" with
     | some i => return .int (← decIntStr i)
     | none =>
@@ -147,9 +151,28 @@ partial def encJVal : JVal → Json
   | .null => Json.null
   | .bool b => Json.bool b
   | .str s => Json.str s
+  | .strf s _ => Json.str s
   | .int n => Json.mkObj [("i", Json.str (toString n))]
   | .float f => Json.mkObj [("f", Json.str f.repr)]
   | .arr l => Json.mkObj [("a", Json.arr (l.map encJVal).toArray)]
   | .obj kvs => Json.mkObj [("o", Json.arr (kvs.map (fun p => Json.arr #[Json.str p.1, encJVal p.2])).toArray)]
+
+
+open Prov.JsonSpec in
+def encAVal : AVal → Json
+  | .str s => Json.arr #["str", s]
+  | .int n => Json.arr #["int", toString n]
+  | .bool b => Json.arr #["bool", b]
+  | .float r => Json.arr #["float", r]
+  | .dt l => Json.arr #["dt", l]
+  | .uri u => Json.arr #["uri", u]
+  | .qn u => Json.arr #["qn", u]
+  | .lit l ty lang => Json.arr #["lit", l, (match ty with | some t => Json.str t | none => Json.null),
+                                 (match lang with | some x => Json.str x | none => Json.null)]
+
+open Prov.JsonSpec in
+def encARec (r : ARec) : Json :=
+  Json.mkObj [("kind", Json.str r.kind), ("id", match r.id with | some u => Json.str u | none => Json.null),
+              ("attrs", Json.arr (r.attrs.map (fun a => Json.arr #[Json.str a.1, encAVal a.2])).toArray)]
 
 end Driver
